@@ -752,10 +752,11 @@ func judgeTokens(d *ldoc, mode string, req map[int]bool, U, F []string, ref func
 	notSub := !orderFree && !isSubseq(chars(F), chars(U))
 	for p := range req {
 		if d.granOf(p) != 'L' {
-			// word- or character-level page: clause 2 is read per fragment, so a line may lose some of its words
-			if notSub {
-				return "not-subsequence", "the filtered output (white space ignored) is not a subsequence of the unfiltered one\n" + show(), ""
-			}
+			// word- or character-level page: clause 2 is read per fragment, so a line may lose some of its words.
+			// The order clause is not judged through the layout-analysing APIs here: tabula's reading order of
+			// per-glyph fragments depends on which lines are present (a surviving sub-line moves from the end to
+			// the front), which is layout analysis, not exclusion; FilterFragments' own order is judged exactly,
+			// by fragment id, on the same documents in the fragment-set runs.
 			return checkTokens(d, mode, req, U, F, show)
 		}
 	}
